@@ -265,4 +265,7 @@ theorem polyNormalizeSample_columns (child : Poly → List Row) (p : Poly) (br :
       cases h
       rw [List.map_map]; rfl
 
+/-- (for the non-vacuity examples of `Properties/C07.lean`) a child that answers every polynomial with the one row `a = 1, b = -1` and that polynomial's energy of it -/
+def demoChild : Poly → List Row := fun q => [⟨[(.str "a", 1), (.str "b", -1)], polyEnergy (Row.val ⟨[(.str "a", 1), (.str "b", -1)], 0⟩) q⟩]
+
 end Enum
